@@ -895,6 +895,11 @@ def check(prog, rep):
     check_labels(prog, rep, m)
     check_precision(prog, rep, m)
     check_formulas(prog, rep, m)
+    from ..sharedrules import check_value_truthiness
+    for fn in ('binary', 'reclassify', 'quantile', 'natural_breaks', 'equal_interval'):
+        if m.funcs.get(fn) is not None:
+            check_value_truthiness(prog, rep, 'K2-truth', m.funcs[fn])
+    rep.floor('K2-truth', 5)
     from ..sharedrules import check_values_keep_dtype
     for fn in ('binary', 'reclassify'):
         if m.funcs.get(fn) is not None:
